@@ -1,5 +1,5 @@
 (* Extraction of the executable models (trusted base: ExtrOcamlBasic only;
    Z, positive and nat stay extracted inductive datatypes). *)
 From Coq Require Import ExtrOcamlBasic.
-From PyecoreV Require Import Model.Coll Model.KernelIO.
-Extraction "modelgen.ml" run_coll run_kernel.
+From PyecoreV Require Import Model.Coll Model.KernelIO Model.Commands Model.SaveFsIO Model.DataConv.
+Extraction "modelgen.ml" run_coll run_kernel run_commands run_savefs run_dataconv.
